@@ -354,3 +354,157 @@ impl Family for C14 {
     shrink_pipeline_field(w)
   }
 }
+
+// ================================================================================================
+// nested subscription on a cold, synchronous source - also behind a sharing operator
+
+/// A second subscription started from inside the first subscriber's callback while a cold source
+/// is still emitting synchronously. Behind `ref_count()` / `replay()` the second subscriber joins
+/// the running connection; what is judged there is what the statement still says: the first
+/// subscriber receives what it would have received alone, the nested subscribe call returns, and
+/// the second subscriber gets the whole sequence (replay, plain pipeline) or the rest of it
+/// (ref_count) with the terminal.
+pub struct C14Shared;
+
+impl Family for C14Shared {
+  fn name(&self) -> &'static str {
+    "c14-nested-subscription-midstream"
+  }
+  fn threaded(&self) -> bool {
+    false
+  }
+  fn gen(&self, rng: &mut Rng, _tier: Tier) -> Json {
+    let script = gen_script(rng, 100, 4, true);
+    Json::obj(vec![
+      ("kind", Json::str(*rng.pick(&["ref_count", "replay", "plain"]))),
+      ("script", script_to_json(&script)),
+      ("nest_at", Json::Int(rng.below(4) as i64)),
+      ("share_observable", Json::Bool(rng.below(2) == 0)),
+      ("context", Json::str(*rng.pick(&["none", "map", "tap"]))),
+      ("polite", Json::Bool(rng.below(2) == 0)),
+    ])
+  }
+  fn exec(&self, w: &Json, cfg: RunCfg) -> RunOut {
+    let kind = w.s("kind");
+    let context = w.s("context");
+    if !["ref_count", "replay", "plain"].contains(&kind.as_str()) || !["none", "map", "tap"].contains(&context.as_str()) {
+      return RunOut::invalid();
+    }
+    let script = match w.get("script").and_then(script_from_json) {
+      Some(s) if s.len() <= 8 => s,
+      _ => return RunOut::invalid(),
+    };
+    let nterm = script.iter().filter(|s| !matches!(s, Step::N(_))).count();
+    if nterm > 1 || (nterm == 1 && matches!(script.last(), Some(Step::N(_)))) {
+      return RunOut::invalid();
+    }
+    let nest_at = w.i("nest_at");
+    if nest_at < 0 || nest_at > 8 {
+      return RunOut::invalid();
+    }
+    let (share, polite) = (w.b("share_observable"), w.b("polite"));
+    let mut rec_a = Recorder::new();
+    let rec_b = Recorder::new();
+    let log = Arc::new(Mutex::new(SrcLog::default()));
+    let nested_returned = Arc::new(Mutex::new(None::<bool>));
+    let (rb2, log2, sc2, kind2, nr2) = (rec_b.clone(), log.clone(), script.clone(), kind.clone(), nested_returned.clone());
+    let obs_cell: Arc<Mutex<Option<Arc<dyn Fn() -> Observable<'static, Val> + Send + Sync>>>> = Arc::new(Mutex::new(None));
+    let oc2 = obs_cell.clone();
+    let seen = Arc::new(Mutex::new(0i64));
+    rec_a.hook = Some(Arc::new(move |ev: &Ev| {
+      if !matches!(ev, Ev::Next(_)) {
+        return;
+      }
+      let k = {
+        let mut s = seen.lock().unwrap();
+        *s += 1;
+        *s - 1
+      };
+      if k == nest_at {
+        let f = oc2.lock().unwrap().clone();
+        if let Some(f) = f {
+          *nr2.lock().unwrap() = Some(false);
+          let sub = rb2.subscribe(&f());
+          std::mem::forget(sub);
+          *nr2.lock().unwrap() = Some(true);
+        }
+      }
+    }));
+    let ra2 = rec_a.clone();
+    let res = rt::run(cfg, move || {
+      let mut source = cold_source(vec![sc2.clone()], log2.clone(), None, polite);
+      source = match context.as_str() {
+        "map" => source.map(|x: Val| x),
+        "tap" => source.tap(|_| {}, |_| {}, || {}),
+        _ => source,
+      };
+      let get: Arc<dyn Fn() -> Observable<'static, Val> + Send + Sync> = match kind2.as_str() {
+        "ref_count" => {
+          let c = source.ref_count();
+          let shared = c.observable();
+          Arc::new(move || if share { shared.clone() } else { c.observable() })
+        }
+        "replay" => {
+          let c = source.replay();
+          let shared = c.observable();
+          Arc::new(move || if share { shared.clone() } else { c.observable() })
+        }
+        _ => Arc::new(move || source.clone()),
+      };
+      *obs_cell.lock().unwrap() = Some(get.clone());
+      let sub = ra2.subscribe(&get());
+      std::mem::forget(sub);
+      *obs_cell.lock().unwrap() = None;
+    });
+    let blame = if kind == "plain" { "observable" } else { kind.as_str() };
+    let mut v = Vec::new();
+    let want: Vec<Ev> = script
+      .iter()
+      .map(|s| match s {
+        Step::N(x) => Ev::Next(Val::Int(*x)),
+        Step::E(e) => Ev::Error(*e),
+        Step::C => Ev::Complete,
+      })
+      .collect();
+    let a: Vec<Ev> = rec_a.events().into_iter().map(|e| e.ev).collect();
+    let b: Vec<Ev> = rec_b.events().into_iter().map(|e| e.ev).collect();
+    let show = |x: &[Ev]| x.iter().map(|e| e.show()).collect::<Vec<_>>().join(" ");
+    let history = vec![format!("first subscriber: [{}]", show(&a)), format!("nested subscriber: [{}]", show(&b)), format!("source subscriptions: {}", log.lock().unwrap().subscriptions.len())];
+    let n_items = want.iter().filter(|e| matches!(e, Ev::Next(_))).count() as i64;
+    let what = format!("cold source [{}] behind {} ({}), second subscription started inside the first subscriber's next callback #{}", show(&want), kind, if share { "one Observable value" } else { "observable() each" }, nest_at);
+    if let Some(o) = outcome_violation(&res, blame) {
+      v.push(o);
+    } else {
+      if a != want {
+        v.push(Violation::new("subscription-not-independent", blame, format!("{}: the first subscriber received [{}], alone it would have received [{}]", what, show(&a), show(&want))));
+      }
+      if nest_at < n_items {
+        if *nested_returned.lock().unwrap() != Some(true) {
+          v.push(Violation::new("nested-subscribe-did-not-return", blame, format!("{}: the nested subscribe call never returned", what)));
+        }
+        let ok = match kind.as_str() {
+          // a running ref_count connection is joined mid-stream: the rest of the items and the terminal
+          "ref_count" => {
+            let items_b: Vec<Ev> = b.iter().filter(|e| matches!(e, Ev::Next(_))).cloned().collect();
+            let items_w: Vec<Ev> = want.iter().filter(|e| matches!(e, Ev::Next(_))).cloned().collect();
+            let tail_ok = items_w.ends_with(&items_b) && (items_b.len() as i64) <= n_items - nest_at;
+            let term_w = want.iter().find(|e| e.is_terminal());
+            let term_b = b.iter().find(|e| e.is_terminal());
+            tail_ok && term_w == term_b && b.iter().filter(|e| e.is_terminal()).count() <= 1 && b.last().map_or(true, |l| term_b.is_none() || l.is_terminal())
+          }
+          _ => b == want,
+        };
+        if !ok {
+          v.push(Violation::new("nested-subscription-wrong", blame, format!("{}: the nested subscriber received [{}]", what, show(&b))));
+        }
+        let subs = log.lock().unwrap().subscriptions.len();
+        let want_subs = if kind == "plain" { 2 } else { 1 };
+        if subs != want_subs {
+          v.push(Violation::new("source-subscription-count", blame, format!("{}: the source was subscribed {} time(s), expected {}", what, subs, want_subs)));
+        }
+      }
+    }
+    let reach = vec![("c14-nested-subscription-started", (nest_at < n_items) as u64)];
+    RunOut { fingerprint: crate::seq::fp(&history), res, violations: v, invalid: false, reach, history }
+  }
+}
